@@ -164,7 +164,11 @@ class GotranODECodePrinter(BaseGotranODECodePrinter):
             d[i.components].append(i)
 
         text = ""
-        for components, intermediates in d.items():
+        # Assignments without a header come first: written below an ``expressions(..)``
+        # header they would be read as part of that block
+        for components, intermediates in sorted(
+            d.items(), key=lambda item: start_odeblock("expressions", item[0], True) != ""
+        ):
             text += start_odeblock("expressions", names=components, is_expression=True) + "\n"
             text += "\n".join([print_assignment(i, doprint=self.doprint) for i in intermediates])
             text += "\n\n"
